@@ -172,8 +172,8 @@ const (
 	fExecOnlyFail
 	fSpill
 	fRefund
-	fRefundRepaid     // refund repaid borrowed execution gas
-	fRefundNegative   // refund drove a frame's UsedStateGas negative
+	fRefundRepaid   // refund repaid borrowed execution gas
+	fRefundNegative // refund drove a frame's UsedStateGas negative
 	fForward
 	fExitOK
 	fExitRevert
